@@ -172,8 +172,15 @@ FaultCall(c) ==
    /\ Ck("fault.atomic", Estimates(c.post) = Estimates(c.pre))
    /\ Ck("fault.efficiency_after", Tr.cls = "sage" => Efficiency(c.post))
 
+\* the public update_storage(x, y) between explain_one calls: one storage update, nothing else changes
+ManualCall(c) ==
+   /\ Ck("manual.estimates_untouched", Estimates(c.post) = Estimates(c.pre) /\ c.post.seen = c.pre.seen)
+   /\ Ck("manual.storage_updated_once", Len(c.stores) = 1 /\ c.stores[1].x_is_arg /\ c.stores[1].y_is_arg
+                                         /\ Len(c.models) = 0 /\ Len(c.losses) = 0)
+
 CheckCall(c) ==
-   IF c.outcome # "ret" THEN FaultCall(c)
+   IF c.outcome = "manual" THEN ManualCall(c)
+   ELSE IF c.outcome # "ret" THEN FaultCall(c)
    ELSE /\ (IF c.pre.seen = 0 THEN FirstCall(c)
             ELSE IF Tr.cls = "sage" THEN SageCall(c) ELSE PfiCall(c))
         /\ Ck("efficiency", Tr.cls = "sage" => Efficiency(c.post))
